@@ -8,10 +8,13 @@
      beacon  () | (x<32 bytes>)                          EIP-4788 parent beacon block root
      withdrawals ((addr amount_gwei) ...)
      pre   ((addr balance nonce x<code> ((key value) ...)) ...)
-     tx    (type key from nonce gas feecap tipcap to value x<data> ((addr (key ...)) ...) blobfeecap (hash ...))
-           key: the sender's private key (implementation only); to: () | (addr)
+     tx    (type key from nonce gas feecap tipcap to value x<data> ((addr (key ...)) ...) blobfeecap (hash ...)
+            ((chain_id address nonce key authority) ...))
+           key: the signer's private key (implementation only); to: () | (addr);
+           authority: () = invalid signature | (addr) = the address of key
    obs   (block_error root receipts rejected gas_used blob_gas_used requests dump)
-     block_error 0 none, 1 empty system contract, 2 system call failed, 100.. model fault
+     block_error 0 none, 1 empty system contract, 2 system call failed (then every other field is
+                 empty / 0: an invalid block has no result), 100.. model fault
      root        x<32 bytes>  (() = trie library failure)
      receipts    ((status gas_used cumulative_gas created ((addr (topic ...) x<data>) ...)) ...)
                  status as in Run/C27.v: 0 ok, 1 revert, 2.. EVM error class, 100.. model fault
@@ -46,6 +49,7 @@ Definition tx_err_code (e : tx_err) : Z :=
   | TE_BlobFeeCapTooLow => 12 | TE_InitCodeSize => 13 | TE_GasLimitReached => 14
   | TE_InsufficientFunds => 15 | TE_IntrinsicGas => 16 | TE_FloorDataGas => 17
   | TE_InsufficientFundsForTransfer => 18 | TE_BlobGasLimitReached => 19
+  | TE_EmptyAuthList => 20 | TE_TxTypeNotSupported => 21 | TE_SetCodeCreate => 22
   end%Z.
 
 Definition block_err_code (e : option block_err) : Z :=
@@ -75,20 +79,28 @@ Definition dec_access (s : sx) : option (N * list N) :=
 Definition dec_withdrawal (s : sx) : option (N * N) :=
   match s with SL [SI a; SI v] => Some (Z.to_N a, Z.to_N v) | _ => None end.
 
+Definition dec_auth (s : sx) : option auth :=
+  match s with
+  | SL [SI chain; SI addr; SI nonce; SI _; SL []] => Some (mk_auth (Z.to_N chain) (Z.to_N addr) (Z.to_N nonce) None)
+  | SL [SI chain; SI addr; SI nonce; SI _; SL [SI a]] =>
+      Some (mk_auth (Z.to_N chain) (Z.to_N addr) (Z.to_N nonce) (Some (Z.to_N a)))
+  | _ => None
+  end.
+
 Definition dec_tx (s : sx) : option tx :=
   match s with
   | SL [SI ty; SI _; SI from; SI nonce; SI gas; SI feecap; SI tipcap; to; SI value; SB data; al;
-        SI blobfeecap; bh] =>
+        SI blobfeecap; bh; aus] =>
       let to' := match to with
                  | SL [] => Some None
                  | SL [SI a] => Some (Some (Z.to_N a))
                  | _ => None
                  end in
-      match to', sx_list_of dec_access al, sx_list_of sx_N bh with
-      | Some t, Some al', Some bh' =>
+      match to', sx_list_of dec_access al, sx_list_of sx_N bh, sx_list_of dec_auth aus with
+      | Some t, Some al', Some bh', Some aus' =>
           Some (mk_tx (Z.to_N ty) (Z.to_N from) (Z.to_N nonce) (Z.to_N gas) (Z.to_N feecap)
-                      (Z.to_N tipcap) t (Z.to_N value) data al' (Z.to_N blobfeecap) bh')
-      | _, _, _ => None
+                      (Z.to_N tipcap) t (Z.to_N value) data al' (Z.to_N blobfeecap) bh' aus')
+      | _, _, _, _ => None
       end
   | _ => None
   end.
@@ -105,14 +117,20 @@ Definition enc_receipt (x : tx_receipt * N) : sx :=
       SL (map enc_log (rc_logs rc))].
 Definition enc_rejected (x : N * tx_err) : sx := SL [sn (fst x); SI (tx_err_code (snd x))].
 
+(* an invalid block (EIP-7002/7251 system contract missing or failing) has no result *)
 Definition enc_block_result (debug : bool) (r : block_result) : sx :=
+  match br_error r with
+  | Some BE_EmptySystemContract | Some BE_SystemCallFailed =>
+      SL [SI (block_err_code (br_error r)); SL []; SL []; SL []; sn 0; sn 0; SL []; SL []]
+  | _ =>
   SL [SI (block_err_code (br_error r));
       match br_state_root r with Some h => SB h | None => SL [] end;
       SL (map enc_receipt (br_receipts r));
       SL (map enc_rejected (br_rejected r));
       sn (br_gas_used r); sn (br_blob_gas_used r);
       SL (map SB (br_requests r));
-      if debug then SL (map enc_account (br_accounts r)) else SL []].
+      if debug then SL (map enc_account (br_accounts r)) else SL []]
+  end.
 
 Definition C26_run (c : sx) : sx :=
   match c with
